@@ -248,8 +248,30 @@ def install(w):
             v = VOpaque(label)
             v.absmap = spec[1]
             return v
+        if spec == "aset":
+            # a set of hashable values whose contents are not tracked (membership: any answer)
+            v = VOpaque(label)
+            v.abstract_set = True
+            return v
         return prev_fresh2(it, spec, label) if prev_fresh2 else None
     w.fresh_ext = fresh_ext2
+
+    prev_getattr_abs = w.getattr_ext
+
+    def getattr_abs(it, v, attr, node):
+        if isinstance(v, VOpaque) and hasattr(v, "absmap") and attr == "get":
+            return VFunc(None, recv=v, builtin="absmap.get", name="get")
+        return prev_getattr_abs(it, v, attr, node)
+    w.getattr_ext = getattr_abs
+
+    def absmap_get(it, f, args, kw, node):
+        """cache.get(key[, default]): the default (None) or some value of the declared kind"""
+        w.trusted_used.add("a cache dict whose contents are not tracked: get() gives the default "
+                           "or some value of the declared kind")
+        if it.choose(2, "absmap get") == 1:
+            return args[1] if len(args) > 1 else atom(None)
+        return it.fresh(f.recv.absmap, "cached")
+    w.builtins["absmap.get"] = absmap_get
 
     prev_index2 = w.index_ext
 
